@@ -14,18 +14,20 @@ Section TyInd.
   Hypothesis Henum : forall al, P (TEnum al).
   Hypothesis Hbool : P TBool.
   Hypothesis Hint : forall lo hi, P (TInt lo hi).
+  Hypothesis Hintlax : forall lo hi, P (TIntLax lo hi).
   Hypothesis Hany : P TAny.
   Hypothesis Hconst : forall c, P (TConst c).
   Hypothesis Hobjany : P TObjAny.
   Hypothesis Hopt : forall t, P t -> P (TOpt t).
   Hypothesis Hvec : forall t, P t -> P (TVec t).
   Hypothesis Hmap : forall c t, P t -> P (TMap c t).
+  Hypothesis Hmapenum : forall al t, P t -> P (TMapEnum al t).
   Hypothesis Hstruct : forall fs, Forall (fun ft => P (snd ft)) fs -> P (TStruct fs).
   Fixpoint ty_ind' (t : ty) : P t :=
     match t with
-    | TStr => Hstr | TId c => Hid c | TEnum al => Henum al | TBool => Hbool | TInt lo hi => Hint lo hi
+    | TStr => Hstr | TId c => Hid c | TEnum al => Henum al | TBool => Hbool | TInt lo hi => Hint lo hi | TIntLax lo hi => Hintlax lo hi
     | TAny => Hany | TConst c => Hconst c | TObjAny => Hobjany
-    | TOpt t' => Hopt t' (ty_ind' t') | TVec t' => Hvec t' (ty_ind' t') | TMap c t' => Hmap c t' (ty_ind' t')
+    | TOpt t' => Hopt t' (ty_ind' t') | TVec t' => Hvec t' (ty_ind' t') | TMap c t' => Hmap c t' (ty_ind' t') | TMapEnum al t' => Hmapenum al t' (ty_ind' t')
     | TStruct fs =>
         Hstruct fs ((fix go (fs : list (fmeta * ty)) : Forall (fun ft => P (snd ft)) fs :=
                        match fs with
@@ -124,7 +126,7 @@ Definition skip_ok (fm : fmeta) (ft : ty) : bool :=
   | SNever => true
   | SIfNone => is_opt ft && match f_default fm with DRequired | DDefault => true | _ => false end
   | SIfEmpty => match f_default fm, ft with
-                | DDefault, (TStr | TVec _ | TMap _ _ | TObjAny) => true
+                | DDefault, (TStr | TVec _ | TMap _ _ | TMapEnum _ _ | TObjAny) => true
                 | _, _ => false
                 end
   | SIfDefault => match f_default fm, default_of ft with DDefault, Some _ => true | _, _ => false end
@@ -142,6 +144,7 @@ Fixpoint wf_ty (t : ty) : bool :=
   | TConst c => nodup_deep c && negb (json_eqb c JNull)
   | TOpt t' => wf_ty t'
   | TVec t' | TMap _ t' => wf_ty t'
+  | TMapEnum al t' => enum_ok al al && wf_ty t'
   | TStruct fs =>
       nodup_strs (flat_map field_names fs)
       && (fix go (fs : list (fmeta * ty)) : bool :=
@@ -195,7 +198,7 @@ Section Proofs.
     | TId c, VStr s => valid c s = true
     | TEnum al, VStr s => assoc_alias s al = s
     | TBool, VBool _ => True
-    | TInt lo hi, VInt z => (lo <= z <= hi)%Z
+    | TInt lo hi, VInt z | TIntLax lo hi, VInt z => (lo <= z <= hi)%Z
     | TAny, VAny j => nodup_deep j = true
     | TConst c, VAny j => j = c
     | TObjAny, VAny j => (exists m, j = JObj m) /\ nodup_deep j = true
@@ -206,6 +209,10 @@ Section Proofs.
         NoDup (List.map fst m)
         /\ (fix go (m : list (str * val)) : Prop :=
               match m with [] => True | (k, x) :: r => valid c k = true /\ ok t' x /\ go r end) m
+    | TMapEnum al t', VMap m =>
+        sorted m
+        /\ (fix go (m : list (str * val)) : Prop :=
+              match m with [] => True | (k, x) :: r => assoc_alias k al = k /\ ok t' x /\ go r end) m
     | TStruct fs, VStruct vs =>
         (fix go (fs : list (fmeta * ty)) (vs : list val) : Prop :=
            match fs, vs with
@@ -215,6 +222,23 @@ Section Proofs.
            end) fs vs
     | _, _ => False
     end.
+
+  Definition ok_mapenum (al : list (str * str)) (t : ty) (m : list (str * val)) : Prop :=
+    (fix go (m : list (str * val)) : Prop :=
+       match m with [] => True | (k, x) :: r => assoc_alias k al = k /\ ok t x /\ go r end) m.
+  Definition deser_mapenum (al : list (str * str)) (t : ty) (m : list (str * json)) (acc : list (str * val)) :
+    option (list (str * val)) :=
+    (fix go (m : list (str * json)) (acc : list (str * val)) : option (list (str * val)) :=
+       match m with
+       | [] => Some acc
+       | (k, x) :: r => match deser t x with
+                        | Some v => go r (insert (assoc_alias k al) v acc)
+                        | None => None
+                        end
+       end) m acc.
+  Lemma deser_mapenum_cons al t k x r acc : deser_mapenum al t ((k, x) :: r) acc =
+    match deser t x with Some v => deser_mapenum al t r (insert (assoc_alias k al) v acc) | None => None end.
+  Proof. reflexivity. Qed.
 
   Definition ok_vec (t : ty) (l : list val) : Prop :=
     (fix go (l : list val) : Prop := match l with [] => True | x :: r => ok t x /\ go r end) l.
@@ -384,8 +408,9 @@ Section Proofs.
 
   Lemma default_of_ok t : forall d, default_of t = Some d -> ok t d.
   Proof.
-    induction t as [|c|al| |lo hi| |k| |t IH|t IH|c t IH|fs IH] using ty_ind'; intros d H; cbn [default_of] in H;
+    induction t as [|c|al| |lo hi|lo hi| |k| |t IH|t IH|c t IH|al t IH|fs IH] using ty_ind'; intros d H; cbn [default_of] in H;
       try discriminate; try (injection H as <-; cbn; auto).
+    - destruct ((lo <=? 0)%Z && (0 <=? hi)%Z) eqn:E; [|discriminate]. injection H as <-. cbn. lia.
     - destruct ((lo <=? 0)%Z && (0 <=? hi)%Z) eqn:E; [|discriminate]. injection H as <-. cbn. lia.
     - split; [now exists []|reflexivity].
     - split; [constructor|exact I].
@@ -413,12 +438,16 @@ Section Proofs.
   (** what [deser] reads from a non-null JSON value never prints as `null` *)
   Lemma deser_ser_not_null t : wf_ty t = true -> forall j v, deser t j = Some v -> j <> JNull -> ser t v <> Some JNull.
   Proof.
-    induction t as [|c|al| |lo hi| |k| |t IH|t IH|c t IH|fs IH] using ty_ind'; intros Hwf j v H Hj; cbn [Serde.deser] in H.
+    induction t as [|c|al| |lo hi|lo hi| |k| |t IH|t IH|c t IH|al t IH|fs IH] using ty_ind'; intros Hwf j v H Hj; cbn [Serde.deser] in H.
     - destruct j; try discriminate. injection H as <-. discriminate.
     - destruct j; try discriminate. destruct (valid c s); [|discriminate]. injection H as <-. discriminate.
     - destruct j; try discriminate. injection H as <-. discriminate.
     - destruct j; try discriminate. injection H as <-. discriminate.
     - destruct j; try discriminate. destruct ((lo <=? z)%Z && (z <=? hi)%Z); [|discriminate]. injection H as <-. discriminate.
+    - destruct j; try discriminate.
+      + destruct ((lo <=? z)%Z && (z <=? hi)%Z); [|discriminate]. injection H as <-. discriminate.
+      + destruct (C08.Model.parse_v1_string s) as [z|]; [|discriminate].
+        destruct ((lo <=? z)%Z && (z <=? hi)%Z); [|discriminate]. injection H as <-. discriminate.
     - injection H as <-. cbn. congruence.
     - injection H as <-. cbn [ser]. cbn [wf_ty] in Hwf. apply andb_true_iff in Hwf as [_ Hk].
       intros E. injection E as ->. cbn in Hk. discriminate.
@@ -435,18 +464,25 @@ Section Proofs.
     - destruct j; try discriminate.
       match type of H with option_map _ ?x = _ => destruct x; [|discriminate] end. injection H as <-.
       cbn [ser]. match goal with |- option_map _ ?x <> _ => destruct x end; discriminate.
+    - destruct j; try discriminate.
+      match type of H with option_map _ ?x = _ => destruct x; [|discriminate] end. injection H as <-.
+      cbn [ser]. match goal with |- option_map _ ?x <> _ => destruct x end; discriminate.
   Qed.
 
   (** values produced by [deser] satisfy [ok] *)
   Lemma deser_ok t : wf_ty t = true -> forall j v, nodup_deep j = true -> deser t j = Some v -> ok t v.
   Proof.
-    induction t as [|c|al| |lo hi| |k| |t IH|t IH|c t IH|fs IH] using ty_ind'; intros Hwf j v Hj H; cbn [Serde.deser] in H.
+    induction t as [|c|al| |lo hi|lo hi| |k| |t IH|t IH|c t IH|al t IH|fs IH] using ty_ind'; intros Hwf j v Hj H; cbn [Serde.deser] in H.
     - destruct j; try discriminate. injection H as <-. exact I.
     - destruct j; try discriminate. destruct (valid c s) eqn:E; [|discriminate]. injection H as <-. exact E.
     - destruct j; try discriminate. injection H as <-. cbn. now apply enum_idem.
     - destruct j; try discriminate. injection H as <-. exact I.
     - destruct j; try discriminate. destruct ((lo <=? z)%Z && (z <=? hi)%Z) eqn:E; [|discriminate].
       injection H as <-. cbn. lia.
+    - destruct j; try discriminate.
+      + destruct ((lo <=? z)%Z && (z <=? hi)%Z) eqn:E; [|discriminate]. injection H as <-. cbn. lia.
+      + destruct (C08.Model.parse_v1_string s) as [z|]; [|discriminate].
+        destruct ((lo <=? z)%Z && (z <=? hi)%Z) eqn:E; [|discriminate]. injection H as <-. cbn. lia.
     - injection H as <-. exact Hj.
     - injection H as <-. reflexivity.
     - destruct j; try discriminate. injection H as <-. split; [eauto|exact Hj].
@@ -475,6 +511,30 @@ Section Proofs.
           destruct (IHm Hm vs' eq_refl) as [E1 E2]. split; [cbn; now rewrite E1|].
           split; [exact Ek|]. split; [eapply IH; eauto|exact E2]. }
       destruct Hkeys as [E1 E2]. split; [now rewrite E1|exact E2].
+    - destruct j; try discriminate. cbn [wf_ty] in Hwf. apply andb_true_iff in Hwf as [Hen Hwf]. cbn [nodup_deep] in Hj.
+      change (option_map VMap (deser_mapenum al t m []) = Some v) in H.
+      destruct (deser_mapenum al t m []) as [vs|] eqn:E; [|discriminate]. injection H as <-.
+      apply andb_true_iff in Hj as [_ Hm].
+      assert (G : forall m acc vs, forallb (fun kv => nodup_deep (snd kv)) m = true ->
+                   (forall x, In x (List.map snd m) -> forall v, nodup_deep x = true -> Serde.deser valid t x = Some v -> ok t v) ->
+                   deser_mapenum al t m acc = Some vs ->
+                   sorted acc /\ (forall k x, In (k, x) acc -> assoc_alias k al = k /\ ok t x) ->
+                   sorted vs /\ (forall k x, In (k, x) vs -> assoc_alias k al = k /\ ok t x)).
+      { clear -Hen. induction m as [|[k x] m IHm]; intros acc vs Hm Hel E Hacc.
+        - cbn in E. injection E as <-. exact Hacc.
+        - rewrite deser_mapenum_cons in E. cbn [forallb snd] in Hm. apply andb_true_iff in Hm as [Hx Hm].
+          destruct (Serde.deser valid t x) as [v|] eqn:Ev; [|discriminate].
+          eapply IHm; [exact Hm| |exact E|].
+          + intros y Hy. apply Hel. cbn [List.map snd]. now right.
+          + destruct Hacc as [Hs Hin]. split; [now apply sorted_insert|].
+            intros k' x' Hin'. apply In_insert in Hin' as [[-> ->]|Hin'].
+            * split; [now apply enum_idem|]. eapply Hel; eauto. cbn [List.map snd]. now left.
+            * now apply Hin. }
+      destruct (G m [] vs Hm) as [Hs Hall]; [|exact E| |].
+      { intros x Hx v Hnx Hv. eapply IH; eauto. }
+      { split; [exact I|intros ? ? []]. }
+      cbn. split; [exact Hs|]. clear -Hall. induction vs as [|[k x] vs IHv]; [exact I|].
+      destruct (Hall k x (or_introl eq_refl)) as [A B]. repeat split; auto. apply IHv. intros; apply Hall; now right.
     - destruct j; try discriminate. rewrite wf_struct in Hwf. apply andb_true_iff in Hwf as [_ Hwf].
       change (option_map VStruct (deser_fields fs m) = Some v) in H. destruct (deser_fields fs m) as [vs|] eqn:E; [|discriminate]. injection H as <-.
       cbn. fold (ok_fields fs vs). cbn [nodup_deep] in Hj. apply andb_true_iff in Hj as [_ Hm].
@@ -564,6 +624,7 @@ Section Proofs.
           -- destruct Hx as [[m' ->] _]. destruct m'; [reflexivity|discriminate].
           -- destruct l; [reflexivity|discriminate].
           -- destruct m; [reflexivity|discriminate].
+          -- destruct m; [reflexivity|discriminate].
         * destruct (f_default fm); try discriminate. destruct (default_of ft) as [d|]; [|discriminate].
           apply val_eqb_eq in Esk. now subst.
         * destruct (f_default fm) as [| |c'|]; try discriminate.
@@ -574,11 +635,13 @@ Section Proofs.
   (** ** serialize, then deserialize: the value comes back *)
   Theorem roundtrip t : wf_ty t = true -> forall v, ok t v -> exists j, ser t v = Some j /\ deser t j = Some v.
   Proof.
-    induction t as [|c|al| |lo hi| |k| |t IH|t IH|c t IH|fs IH] using ty_ind'; intros Hwf v Hok.
+    induction t as [|c|al| |lo hi|lo hi| |k| |t IH|t IH|c t IH|al t IH|fs IH] using ty_ind'; intros Hwf v Hok.
     - destruct v; try contradiction. eexists; split; reflexivity.
     - destruct v; try contradiction. cbn in Hok. eexists; split; [reflexivity|]. cbn. now rewrite Hok.
     - destruct v; try contradiction. cbn in Hok. eexists; split; [reflexivity|]. cbn. now rewrite Hok.
     - destruct v; try contradiction. eexists; split; reflexivity.
+    - destruct v; try contradiction. cbn in Hok. eexists; split; [reflexivity|]. cbn.
+      replace ((lo <=? z)%Z && (z <=? hi)%Z) with true by lia. reflexivity.
     - destruct v; try contradiction. cbn in Hok. eexists; split; [reflexivity|]. cbn.
       replace ((lo <=? z)%Z && (z <=? hi)%Z) with true by lia. reflexivity.
     - destruct v; try contradiction. eexists; split; reflexivity.
@@ -606,6 +669,23 @@ Section Proofs.
       destruct G as (js & Ejs & Djs). exists (JObj js). split.
       + change (option_map JObj (ser_map t m) = Some (JObj js)). now rewrite Ejs.
       + change (option_map VMap (deser_map c t js) = Some (VMap m)). now rewrite Djs.
+    - cbn [wf_ty] in Hwf. apply andb_true_iff in Hwf as [Hen Hwf]. destruct v; try contradiction. cbn in Hok.
+      destruct Hok as [Hs Hok]. fold (ok_mapenum al t m) in Hok.
+      (* re-inserting the entries of a sorted map with canonical keys, in order, rebuilds it *)
+      assert (G : forall m acc, ok_mapenum al t m -> sorted (acc ++ m) ->
+                  exists js, ser_map t m = Some js /\ deser_mapenum al t js acc = Some (acc ++ m)).
+      { clear Hs Hok m. induction m as [|[k x] m IHm]; intros acc Hok Hs.
+        - exists []. split; [reflexivity|]. cbn. now rewrite app_nil_r.
+        - destruct Hok as (Hk & Hx & Hm). destruct (IH Hwf x Hx) as (j & Ej & Dj).
+          assert (Hs' : sorted ((acc ++ [(k, x)]) ++ m)) by now rewrite <- app_assoc.
+          destruct (IHm (acc ++ [(k, x)]) Hm Hs') as (js & Ejs & Djs).
+          exists ((k, j) :: js). split; [now rewrite ser_map_cons, Ej, Ejs|].
+          rewrite deser_mapenum_cons, Dj, Hk.
+          rewrite insert_append by (apply sorted_app_inv in Hs' as [Hs' _]; exact Hs').
+          rewrite Djs, <- app_assoc. reflexivity. }
+      destruct (G m [] Hok Hs) as (js & Ejs & Djs). exists (JObj js). split.
+      + change (option_map JObj (ser_map t m) = Some (JObj js)). now rewrite Ejs.
+      + change (option_map VMap (deser_mapenum al t js []) = Some (VMap m)). now rewrite Djs.
     - rewrite wf_struct in Hwf. apply andb_true_iff in Hwf as [Hnd Hwf]. apply nodup_strs_NoDup in Hnd.
       destruct v; try contradiction. cbn in Hok. fold (ok_fields fs l) in Hok.
       destruct (fields_roundtrip fs IH Hwf Hnd l Hok) as (ms & Ems & Hms).
@@ -635,9 +715,17 @@ Section Proofs.
       destruct (ser_map t m) as [ys|]; [|discriminate]. injection H as <-. cbn. now rewrite (IH ys eq_refl).
   Qed.
 
+  Lemma sorted_nodup_keys {A} (m : amap A) : sorted m -> NoDup (List.map fst m).
+  Proof.
+    induction m as [|[k v] m IH]; cbn [sorted List.map fst]; intros H; [constructor|].
+    destruct H as [G S]. constructor; [|auto].
+    intros Hin. apply in_map_iff in Hin as ([k' v'] & E & Hin). cbn in E. subst k'.
+    specialize (G _ _ Hin). now rewrite str_ltb_irrefl in G.
+  Qed.
+
   Theorem ser_nodup t : wf_ty t = true -> forall v j, ok t v -> ser t v = Some j -> nodup_deep j = true.
   Proof.
-    induction t as [|c|al| |lo hi| |k| |t IH|t IH|c t IH|fs IH] using ty_ind'; intros Hwf v j Hok H;
+    induction t as [|c|al| |lo hi|lo hi| |k| |t IH|t IH|c t IH|al t IH|fs IH] using ty_ind'; intros Hwf v j Hok H;
       destruct v; try contradiction; cbn [ser] in H; try (injection H as <-; reflexivity).
     - injection H as <-. exact Hok.
     - injection H as <-. cbn in Hok. subst. cbn [wf_ty] in Hwf. now apply andb_true_iff in Hwf as [Hwf _].
@@ -654,6 +742,15 @@ Section Proofs.
       destruct (ser_map t m) as [js|] eqn:E; [|discriminate]. injection H as <-. cbn [nodup_deep].
       cbn in Hok. destruct Hok as [Hnd Hok]. fold (ok_map c t m) in Hok.
       rewrite (ser_map_keys _ _ _ E), (NoDup_nodup_strs _ Hnd). cbn [andb]. clear Hnd.
+      revert js E. induction m as [|[k x] m IHm]; intros js E.
+      + cbn in E. now injection E as <-.
+      + rewrite ser_map_cons in E. destruct (ser t x) as [y|] eqn:Ey; [|discriminate].
+        destruct (ser_map t m) as [ys|]; [|discriminate]. injection E as <-. destruct Hok as (_ & Hx & Hm).
+        cbn [forallb snd]. rewrite (IH Hwf x y Hx Ey). now apply IHm.
+    - cbn [wf_ty] in Hwf. apply andb_true_iff in Hwf as [_ Hwf]. change (option_map JObj (ser_map t m) = Some j) in H.
+      destruct (ser_map t m) as [js|] eqn:E; [|discriminate]. injection H as <-. cbn [nodup_deep].
+      cbn in Hok. destruct Hok as [Hs Hok]. fold (ok_mapenum al t m) in Hok.
+      rewrite (ser_map_keys _ _ _ E), (NoDup_nodup_strs _ (sorted_nodup_keys _ Hs)). cbn [andb]. clear Hs.
       revert js E. induction m as [|[k x] m IHm]; intros js E.
       + cbn in E. now injection E as <-.
       + rewrite ser_map_cons in E. destruct (ser t x) as [y|] eqn:Ey; [|discriminate].
